@@ -550,6 +550,8 @@ class Walker:
             return dict(cls="contiguous", addr=int.from_bytes(d[2:2 + O], "little"), size=int.from_bytes(d[2 + O:2 + O + L], "little"))
         if c == 2:
             nd = d[2]
+            if len(d) == 3 + O + 4 * nd + 4:
+                nd += 1         # literal reading of the field list: <dimensionality> sizes followed by the element size
             if len(d) != 3 + O + 4 * nd:
                 raise SpecError("%s: chunked layout message has %d bytes, dimensionality %d needs %d" % (where, len(d), nd, 3 + O + 4 * nd))
             return dict(cls="chunked", nd=nd, addr=int.from_bytes(d[3:3 + O], "little"),
@@ -693,7 +695,7 @@ class Walker:
             if lay["dims"][-1] != esz:
                 raise SpecError("%s: chunk element-size dimension %d, datatype size %d" % (owner, lay["dims"][-1], esz))
         elif nd == rank:
-            self.deviate("chunk-dims-no-elem-dim", owner, "chunked layout dimensionality %d for a rank-%d dataset: the specification stores rank+1 dimensions, the last being the element size; B-tree keys then also lack the trailing 0 offset" % (nd, rank))
+            self.deviate("chunk-dims-no-elem-dim", owner, "chunked layout message holds %d dimension sizes for a rank-%d dataset and no dataset element size field (the specification stores rank+1 values, the last being the element size); B-tree keys then also lack the trailing 0 offset" % (nd, rank))
             cdims = lay["dims"]
         else:
             raise SpecError("%s: chunked layout dimensionality %d for a rank-%d dataset" % (owner, nd, rank))
@@ -1079,9 +1081,11 @@ class Walker:
             return out
         saved = len(self.dev)
         attrs = decode("spec")
+        lib_mode = False
         if attrs is None:
             del self.dev[saved:]
             attrs = decode("lib")
+            lib_mode = True
             if attrs is None:
                 # report the precise reason in tolerant mode
                 for hv, hid in recs:
@@ -1091,7 +1095,10 @@ class Walker:
                     a = self.attribute(obj, owner)
                     if lookup3(a["name"]) != hv:
                         raise SpecError("%s: name-index hash 0x%08x but lookup3(%r) = 0x%08x" % (owner, hv, a["name"][:30], lookup3(a["name"])))
+                raise SpecError("%s: dense attributes do not decode" % owner)
             self.deviate("fheap-offset-excludes-block-prefix", "%s@%d" % (owner, heap_a), "heap ID offsets count from the start of the object data of a direct block; the specification's heap address space includes the block's prefix (signature, version, header address, block offset)")
+        for (hv, hid), a in zip(recs, attrs):
+            self.checks.append(("btree2-name-hash", bt_a, "lookup3", a["name"], None, hv))
         return attrs
 
     # -- objects
